@@ -17,7 +17,10 @@
 (***************************************************************************)
 EXTENDS Wb, Json, SequencesExt
 
-CONSTANTS MaxSections, Sph, AngleSet
+CONSTANTS MaxSections, Sph, AngleSet,
+          West,       \* TRUE: the shift is to the west (configuration files cannot hold negative numbers)
+          LonOffAbs   \* spherical only: every longitude of the table and of the probes is shifted by LonOff / 100 degrees
+                      \* (the ellipse then crosses the +-180 meridian, or its centres are written beyond it)
 
 Centres == {<<0, 0>>, <<20, 10>>}          \* km (or 1/100 degree)
 Axes    == {50, 30}                        \* km (or 1/100 degree)
@@ -27,6 +30,8 @@ MinDepth == 10
 MaxDepth == 150
 
 Section == [c : Centres, a : Axes, e : Eccs, ang : AngleSet]
+
+LonOff == IF West THEN -LonOffAbs ELSE LonOffAbs
 
 (***************************************************************************)
 (* Prop: interpolated ellipse at a depth                                   *)
@@ -79,7 +84,7 @@ R == 6371000
 U(x) == IF Sph THEN Rat(x, 100) ELSE x * Km
 Doc(t) ==
   World(IF Sph THEN Spherical("begin segment") ELSE Cartesian,
-        << Plume("plume", [i \in 1..Len(t) |-> <<U(t[i].c[1]), U(t[i].c[2])>>],
+        << Plume("plume", [i \in 1..Len(t) |-> <<U(t[i].c[1] + (IF Sph THEN LonOff ELSE 0)), U(t[i].c[2])>>],
                  [i \in 1..Len(t) |-> SectionDepths[i] * Km], [i \in 1..Len(t) |-> U(t[i].a)],
                  [i \in 1..Len(t) |-> Rat(t[i].e, 10)], [i \in 1..Len(t) |-> t[i].ang],
                  MinDepth * Km, MaxDepth * Km, <<>>, <<CUniform(<<1>>, "replace")>>, <<>>, <<>>) >>)
@@ -88,7 +93,7 @@ ProbeXY == {<<x, y>> : x, y \in {-45, -30, -10, 0, 15, 25, 40, 60}}
 ProbeDepths(n) == {5, 10, 12, 25, 39, 40, 150, 151, 130} \cup (IF n >= 2 THEN {50, 53, 60, 70, 77, 80} ELSE {})
                     \cup (IF n >= 3 THEN {90, 100, 104, 110, 119, 120} ELSE {})
 
-Row(p, d) == IF Sph THEN <<R - d * Km, Rat(p[1], 100), Rat(p[2], 100), d * Km, p[1], p[2]>>
+Row(p, d) == IF Sph THEN <<R - d * Km, Rat(p[1] + LonOff, 100), Rat(p[2], 100), d * Km, p[1], p[2]>>
                     ELSE <<p[1] * Km, p[2] * Km, HM - d * Km, d * Km, p[1], p[2]>>
 
 (* one query table per depth: the ellipse of that depth is bound once, F is evaluated per row *)
@@ -104,7 +109,7 @@ DepthTable(t, d) ==
 
 Behaviour(t) ==
   LET ds == SetToSeq(ProbeDepths(Len(t))) IN
-  [id |-> <<"plume", t>>, labels |-> <<"plume-extent", "n" \o ToString(Len(t)), IF Sph THEN "spherical" ELSE "cartesian">>,
+  [id |-> <<"plume", t, LonOff>>, labels |-> <<"plume-extent", "n" \o ToString(Len(t)), IF Sph THEN "spherical" ELSE "cartesian", "lon-offset-" \o ToString(LonOff)>>,
    steps |-> <<[op |-> "create", h |-> 1, wb |-> Doc(t)]>> \o [i \in 1..Len(ds) |-> DepthTable(t, ds[i])]]
 
 VARIABLE table
